@@ -39,6 +39,8 @@ class SymTab:
         self.rootmemo = {}
         self.linked = set()
         self.bounds = {}
+        self.nonneg = set() # keys of polynomials known to be sums of squares (registered by sum_of_squares)
+        self.defn = {}      # cut symbols: defining expression (value), used by exact evaluation
 
     def new(self, name, kind, rad=None, pos=False, lo=None, hi=None):
         i = len(self.kind)
@@ -312,6 +314,8 @@ class P:
         if not self.t:
             return 0
         T = tab()
+        if T.nonneg and self.key() in T.nonneg:
+            return 1
         pos = neg = True
         strict = False
         for m, c in self.t.items():
@@ -630,6 +634,18 @@ def _has_neg(p):
     return any(e < 0 for m in p.t for _, e in m)
 
 
+def sum_of_squares(values):
+    """sum of v*v over the given A-scalars; the result is registered as non-negative (sound by construction)"""
+    s = 0
+    for v in values:
+        if is_structural_zero(v):
+            continue
+        s = s + v * v
+    if _isinstance(s, P):
+        tab().nonneg.add(s.key())
+    return s
+
+
 def new_dim(name, lo=1, hi=None):
     return P.sym(tab().new(name, 'dim', lo=lo, hi=hi))
 
@@ -865,6 +881,8 @@ def eval_float(p, env=None):
             r = math.sqrt(max(0.0, eval_float(T.rad[s], memo)))
         elif T.kind[s] == 'sign':
             r = 1.0
+        elif s in T.defn:
+            r = eval_float(T.defn[s], memo)
         else:
             raise ValueError('free symbol in exact evaluation')
         memo[s] = r
